@@ -167,6 +167,9 @@ class UAIReader(object):
         """
         domain = {}
         var_domain = self.grammar.parseString(self.network)["domain_variables"]
+        # A single token comes back as a bare string, not a list.
+        if isinstance(var_domain, str):
+            var_domain = [var_domain]
         for var in range(0, len(var_domain)):
             domain["var_" + str(var)] = var_domain[var]
         return domain
@@ -235,12 +238,16 @@ class UAIReader(object):
                 values = self.grammar.parseString(self.network)[
                     "fun_values_" + str(function)
                 ]
+                if isinstance(values, str):
+                    values = [values]
                 tables.append((child_var, list(values)))
             elif self.network_type == "MARKOV":
                 function_variables = ["var_" + str(var) for var in function_variables]
                 values = self.grammar.parseString(self.network)[
                     "fun_values_" + str(function)
                 ]
+                if isinstance(values, str):
+                    values = [values]
                 tables.append((function_variables, list(values)))
         return tables
 
